@@ -1,13 +1,22 @@
-(* Correspondence definitions for C27: evaluate the Convert model on the cases the implementation ran. *)
+(* Correspondence definitions for C27: evaluate the Convert models on the cases the implementation ran. *)
 From Coq Require Import List NArith ZArith Bool.
 Import ListNotations.
-From GMS Require Import Codec.C25Arith Codec.C27Convert.
+From GMS Require Import Base.CorrLib Codec.C25Arith Codec.C27Convert Codec.C27Strings.
 
-(* target type, source value, observed (value, flag) or error *)
-Definition case : Type := (target * value * outcome)%type.
+Inductive case :=
+| NumCase (t : target) (v : value) (out : outcome)              (* integer / decimal source: Type.Convert *)
+| StrIntCase (t : ity) (bs : list Z) (out : outcome)             (* text into a narrow integer type or BIGINT *)
+| TextCase (binary : bool) (maxlen : Z) (bs : list Z) (nchars : Z) (out : souts).  (* text into VARCHAR/CHAR/VARBINARY *)
+
+Definition souts_eqb (a b : souts) : bool :=
+  match a, b with TErr, TErr => true | TOk x, TOk y => zs_eqb x y | _, _ => false end.
 
 Definition ok (c : case) : bool :=
-  let '(t, v, out) := c in outcome_eqb (convert t v) out.
+  match c with
+  | NumCase t v out => outcome_eqb (convert t v) out
+  | StrIntCase t bs out => outcome_eqb (conv_int_str t bs) out
+  | TextCase b m bs n out => souts_eqb (conv_text b m bs n) out
+  end.
 
 Definition mismatches (cs : list (N * case)) : list N :=
   map fst (filter (fun p => negb (ok (snd p))) cs).
